@@ -60,8 +60,9 @@ func suValue(vseed int64, topic string, id int) any {
 	}
 	switch topic {
 	case "TRIANGLE":
+		// a configuration the source accepts (a saved one always is): one triangle cycle lasts at most 4 s
 		mn := RawType(r.Intn(30000))
-		return &TriangleSourceConfig{Nchan: 1 + r.Intn(64), SampleRate: float64(1+r.Intn(100000)) + 0.25*float64(r.Intn(4)), Min: mn, Max: mn + RawType(r.Intn(30000))}
+		return &TriangleSourceConfig{Nchan: 1 + r.Intn(64), SampleRate: float64(2000+r.Intn(100000)) + 0.25*float64(r.Intn(4)), Min: mn, Max: mn + RawType(r.Intn(2000))}
 	case "SIMPULSE":
 		amps := make([]float64, r.Intn(4))
 		for i := range amps {
@@ -84,7 +85,7 @@ func suValue(vseed int64, topic string, id int) any {
 		n := r.Intn(3)
 		hp, rates := make([]string, n), make([]float64, n)
 		for i := range hp {
-			hp[i] = fmt.Sprintf("10.0.0.%d:%d", r.Intn(255), 60000+r.Intn(100))
+			hp[i] = fmt.Sprintf("127.0.0.1:%d", 61000+r.Intn(4000)) // a local address (start-up binds it)
 			rates[i] = float64(1000 + r.Intn(100000))
 		}
 		return &RoachSourceConfig{HostPort: hp, Rates: rates, AbacoUnwrapOptions: AbacoUnwrapOptions{RescaleRaw: true, Unwrap: r.Intn(2) == 0, ResetAfter: 1 + r.Intn(1000), PulseSign: 1}}
@@ -349,6 +350,7 @@ func suRemember(last map[string]any, lastStr map[string]string, tag string, stat
 func suRunSave(id int, sc *suScen, base string) {
 	home := filepath.Join(base, fmt.Sprintf("sc%d", id))
 	snapBase := filepath.Join(os.Getenv("VERIF_SNAPDIR"), fmt.Sprintf("sc%d", id))
+	lastSaveClean := false
 	os.MkdirAll(filepath.Join(home, ".dastard"), 0775)
 	last, lastStr := map[string]any{}, map[string]string{}
 	if sc.Main0 == "conf" {
@@ -412,11 +414,15 @@ func suRunSave(id int, sc *suScen, base string) {
 			for k, v := range sent {
 				snapSent[k] = v
 			}
+			lastSaveClean = st.Crash == 0
 			vEmit(vmap{"ev": "Save", "crash": st.Crash, "partial": st.Partial, "hit": hit || st.Crash == 0, "pre": pre, "post": post, "new": newDesc, "sent": snapSent})
 		case "restart":
 			nsnap++
 			snap := filepath.Join(snapBase, fmt.Sprintf("r%d", nsnap))
 			suCopyDir(home, snap)
+			if lastSaveClean && len(sent) >= 3 { // worth a complete start-up in a process of its own (see cmddastard harness)
+				os.WriteFile(filepath.Join(snap, "FULLSTART"), []byte("x"), 0664)
+			}
 			read := suStartup(home)
 			restored := suRestored()
 			vEmit(vmap{"ev": "Restart", "read": read, "snap": snap, "restored": restored, "sent": map[string]string{}, "files": suFiles(home), "timed": false})
